@@ -536,6 +536,10 @@ public:
         else if (auto* SS = dyn_cast<SwitchStmt>(S))
         {
             O["k"] = "switch";
+            if (SS->getInit())
+                O["init"] = node(SS->getInit());
+            if (SS->getConditionVariableDeclStmt())
+                O["condvar"] = node(SS->getConditionVariableDeclStmt());
             O["cond"] = node(SS->getCond());
             O["body"] = node(SS->getBody());
         }
